@@ -46,8 +46,14 @@ def _header_from_dep5_header(
 def _copyrights_from_paragraph(
     paragraph: FilesParagraph,
 ) -> Union[str, list[str]]:
+    # Like the reader, leave out the empty first line of a field that begins on
+    # its second line, and the ' .' that stands for an empty line.
     return _collapse_list_if_one_item(
-        [line.strip() for line in cast(str, paragraph.copyright).splitlines()]
+        [
+            line.strip()
+            for line in cast(str, paragraph.copyright).splitlines()
+            if line.strip() not in ("", ".")
+        ]
     )
 
 
@@ -100,6 +106,10 @@ def _annotations_from_paragraphs(
             "SPDX-FileCopyrightText": copyrights,
             "SPDX-License-Identifier": paragraph.license.synopsis,
         }
+        # A License field without a synopsis (the licence's text alone)
+        # declares no licence.
+        if not paragraph.license.synopsis.strip():
+            del paragraph_result["SPDX-License-Identifier"]
         comment = _comment_from_paragraph(paragraph)
         if comment:
             paragraph_result["SPDX-FileComment"] = comment
